@@ -321,8 +321,11 @@ def worldCmd (cmd : String) (w : World) (wf : List WT) (args : List String) : St
        let subs := match lim.toNat? with | some k => subs0.take k | none => subs0
        let w' := subs.foldl (fun w s => w.submit wf s.1 s.2) w
        let subsShown := subs.map (fun s => toh (nameOf wf s.1) ++ ":" ++ "+".intercalate (s.2.map (fun d => toh (nameOf wf d))))
+       -- the prerequisite arguments of every submission, rendered for this backend
+       let newJobs := w'.jobs.drop w.jobs.length
+       let args := newJobs.map (fun j => toh j.name ++ ":" ++ "+".intercalate ((Sch.renderDeps w.backend (j.deps.map String.toList)).map (fun a => toh (String.ofList a))))
        "ok subs=" ++ ";".intercalate subsShown ++ " tracked=" ++ showKV w'.tracked ++ " hashes=" ++ showKV w'.hashes
-         ++ " jobs=" ++ showJobs w'.jobs)
+         ++ " jobs=" ++ showJobs w'.jobs ++ " args=" ++ ";".intercalate args)
   | "touch", [ps] =>
     (match w.touch wf (pats ps) with
      | .error e => "err " ++ e.name
